@@ -205,6 +205,27 @@ CHECKS["C04"] = dict(
     technique="Coq proof over a symbolic merkle model + model/implementation correspondence + trace monitor",
     ref="5/C04")
 
+CHECKS["C01"] = dict(
+    text="Machine-checked proofs (Coq) over the combined world node (Sync.v, every node step is literally Sync.step) + "
+         "Bitcoin-node-like peer + message channel (Peer.v), with deliveries, duplications, answers, block processing, "
+         "checks, clock, time-outs, disconnects, restarts and peer best-chain changes as atomic actions. SAFETY over ALL "
+         "action lists (any order, delay, duplication): HandleInSync is emitted only when the node is ready and no "
+         "announced block is outstanding, and at most once per process; the reachability invariant (C02's chain "
+         "invariant + well-formed in-flight headers). LIVENESS (partial, stated as such): for every world satisfying "
+         "the executable predicates 'freshly (re)connected and behind / forked within the reply size / start block not "
+         "found yet' the canonical settling run reaches a quiescent world whose chain from the start block equals the "
+         "peer's best chain, with reply size, window and time-outs symbolic; the fully quantified statement is REFUTED "
+         "for out-of-order delivery by a proved witness (recorded finding). Worlds with messages in flight across a "
+         "peer event are covered by the correspondence / monitor exploration only (monitor codes 102/106: none in 3016 "
+         "thorough histories). Correspondence: real handler map, ProcessBlock, check, CheckTimeouts, Reset, new Node "
+         "against a Go transcription of Peer.v reacting to the node's real outgoing messages; every scenario ends with a settle.",
+    note="Trusted: Coq kernel; hand-written Peer.v validated against its Go transcription and the real node by "
+         "correspondence; Sync.v as for C02; real TCP, timers and goroutine fairness are not in the model (time-outs are "
+         "model events). Known findings (reorder / duplicate only, impossible on one TCP connection): "
+         "converge:c01:107:settle, converge:c01:108:check, converge:c01:108:settle.",
+    technique="Coq invariant proof (safety, all interleavings) + partial convergence proof by a settling run + refutation witness + model/implementation correspondence + trace monitor",
+    ref="5/C01 and 11")
+
 NOT_APPLICABLE = {
     "C01": "not yet claimed in this revision: the liveness model (peer + time-outs) is in progress; the safety half is covered by C02/C12 theorems",
     "C19": "not yet claimed in this revision: shutdown protocol model in progress",
